@@ -121,6 +121,10 @@ def gen_world(rng, npels=None, fault_rate=None):
                 if m not in SHIPPED and rng.random() < 0.85:
                     plugins.setdefault(m, {"type": "src", "weights": dict(src_w), "salt": rng.randrange(1 << 30),
                                            "import": rng.choice(["ok"] * 8 + ["ImportError", "ModuleNotFoundError"])})
+    for m, spec in plugins.items():
+        if spec.get("import", "ok") == "ok" and not spec.get("near_miss") and rng.random() < 0.12 and \
+                (spec["type"] == "ud" or (m.startswith("srcparsers.o") and m != "srcparsers.osrc.osrc")):
+            spec["transient"] = 1
     return pels, plugins
 
 
@@ -130,17 +134,29 @@ def healthy_twin(plugins):
         t = dict(s)
         t["weights"] = dict(HEALTHY)
         t["import"] = "ok"
+        t["transient"] = 0
         tw[m] = t
     return tw
 
 
 # ---------------------------------------------------------------------------
-def expected_calls(recipe, plugins, skip_plugins=False):
+def expected_calls(recipe, plugins, skip_plugins=False, pending=None, transient_sections=None):
     """[(section index, module, func, args tuple, n_valid_words or None)] in
-    decode order, for fake modules that import successfully"""
+    decode order, for fake modules that import successfully.  `pending` {module: transient import failures still
+    to come} is consumed in decode order: the section that meets a failing import gets no call (its index is added
+    to `transient_sections`)."""
     if skip_plugins:
         return []
     out = []
+    pending = pending if pending is not None else {}
+    transient_sections = transient_sections if transient_sections is not None else set()
+
+    def importable(m, i):
+        if pending.get(m, 0) > 0:
+            pending[m] -= 1
+            transient_sections.add(i)
+            return False
+        return True
 
     def live(m):
         return m in plugins and plugins[m].get("import", "ok") == "ok" and not plugins[m].get("near_miss")
@@ -156,14 +172,14 @@ def expected_calls(recipe, plugins, skip_plugins=False):
             valid = max(0, min(8, s["wordcount"] - 1))
             args = (s["ascii"],) + tuple(words[:valid] + ["00000000"] * (8 - valid))
             m = src_module(creator) if creator != "O" else osrc_sub(s["ascii"])
-            if live(m):
+            if live(m) and importable(m, i):
                 out.append((i, m, "parseSRCToJson", args, valid))
         elif s["kind"] in ("ud", "ed"):
             c = pelgen.section_creator(recipe, s)
             if c == "O" and s["comp"] == 0x2000:
                 continue
             m = ud_module(c, s["comp"])
-            if live(m):
+            if live(m) and importable(m, i):
                 out.append((i, m, "parseUDToJson", (s["subtype"], s["ver"], bytes.fromhex(s["payload"])), None))
     return out
 
